@@ -79,6 +79,7 @@ type fakePeer struct {
 	start    time.Time
 	done     chan struct{}
 	lastOpen *bgp.BGPMessage
+	gate     chan struct{} // non-nil: the peer has stopped reading (TCP window closed) until the channel is closed
 }
 
 func attrSummary(attrs []bgp.PathAttributeInterface) string {
@@ -138,6 +139,12 @@ func attrSummary(attrs []bgp.PathAttributeInterface) string {
 func (p *fakePeer) reader() {
 	defer close(p.done)
 	for {
+		p.mu.Lock()
+		g := p.gate
+		p.mu.Unlock()
+		if g != nil {
+			<-g // stalled: what the speaker writes now waits in its queue, where the sender coalesces it
+		}
 		hdr := make([]byte, bgp.BGP_HEADER_LENGTH)
 		if _, err := io.ReadFull(p.conn, hdr); err != nil {
 			p.mu.Lock()
@@ -293,6 +300,13 @@ func (w *world) neighbor(n sx.Node) *oc.Neighbor {
 	}
 	if ok, _ := hasOpt(n, 3, "aprecv"); ok {
 		nc.AfiSafis[0].AddPaths.Config.Receive = true
+	}
+	if ok, _ := hasOpt(n, 3, "aprecv6"); ok {
+		for i := range nc.AfiSafis {
+			if nc.AfiSafis[i].Config.AfiSafiName == oc.AFI_SAFI_TYPE_IPV6_UNICAST {
+				nc.AfiSafis[i].AddPaths.Config.Receive = true
+			}
+		}
 	}
 	if ok, v := hasOpt(n, 3, "hold"); ok {
 		var k int
@@ -462,6 +476,10 @@ func (w *world) mkOpen(p *fakePeer, n sx.Node) (*bgp.BGPMessage, uint16) {
 			}
 		}
 	}
+	if ok, _ := hasOpt(n, 2, "ap6"); ok { // the fake peer sends path identifiers in IPv6 unicast
+		caps = append(caps, bgp.NewCapAddPath([]*bgp.CapAddPathTuple{bgp.NewCapAddPathTuple(bgp.RF_IPv6_UC, bgp.BGP_ADD_PATH_SEND)}))
+		sendOpt.AddPath[bgp.RF_IPv6_UC] = bgp.BGP_ADD_PATH_SEND
+	}
 	if ok, v := hasOpt(n, 2, "gr"); ok { // gr=<restart time>[r][n]
 		var k int
 		fmt.Sscan(strings.TrimRight(v, "rn"), &k)
@@ -510,13 +528,28 @@ func (w *world) mkOpen(p *fakePeer, n sx.Node) (*bgp.BGPMessage, uint16) {
 
 func routeAttrs(r sx.Node, nhop string) []bgp.PathAttributeInterface {
 	var as []uint32
+	var params []bgp.AsPathParamInterface
+	flush := func() {
+		if len(as) > 0 {
+			params = append(params, bgp.NewAs4PathParam(bgp.BGP_ASPATH_ATTR_TYPE_SEQ, as))
+			as = nil
+		}
+	}
 	for _, a := range r.At(3).List {
+		if strings.HasPrefix(a.Atom, "s:") { // an AS_SET: s:200:65002:300
+			flush()
+			var set []uint32
+			for _, x := range strings.Split(a.Atom[2:], ":") {
+				var k uint32
+				fmt.Sscan(x, &k)
+				set = append(set, k)
+			}
+			params = append(params, bgp.NewAs4PathParam(bgp.BGP_ASPATH_ATTR_TYPE_SET, set))
+			continue
+		}
 		as = append(as, uint32(a.Uint()))
 	}
-	var params []bgp.AsPathParamInterface
-	if len(as) > 0 {
-		params = append(params, bgp.NewAs4PathParam(bgp.BGP_ASPATH_ATTR_TYPE_SEQ, as))
-	}
+	flush()
 	nh, _ := bgp.NewPathAttributeNextHop(v4(nhop))
 	attrs := []bgp.PathAttributeInterface{bgp.NewPathAttributeOrigin(uint8(r.At(6).Uint())), bgp.NewPathAttributeAsPath(params), nh}
 	if m := r.At(4).Atom; m != "-" {
@@ -636,7 +669,7 @@ func (w *world) obs() {
 			if p.PeerAddress.IsValid() {
 				src = p.PeerAddress.String()
 			}
-			ps = append(ps, fmt.Sprintf("(%s %s)", src, sx.B(p.Stale)))
+			ps = append(ps, fmt.Sprintf("(%s %s %d)", src, sx.B(p.Stale), p.RemoteID))
 		}
 		rib6 = append(rib6, "("+prefix.String()+" "+strings.Join(ps, " ")+")")
 	})
@@ -655,6 +688,39 @@ func (w *world) obs() {
 		})
 		sort.Strings(in)
 		parts = append(parts, "(adjin "+k+" "+strings.Join(in, " ")+")")
+	}
+	// table summaries (GetTable) and prefix lookups (exact / longer / shorter) of the global IPv4 table and the Adj-RIB-Ins
+	{
+		fam := &api.Family{Afi: api.Family_AFI_IP, Safi: api.Family_SAFI_UNICAST}
+		var sm []string
+		if r, err := w.s.GetTable(context.Background(), &api.GetTableRequest{TableType: api.TableType_TABLE_TYPE_GLOBAL, Family: fam}); err == nil {
+			sm = append(sm, fmt.Sprintf("(global %d %d)", r.NumDestination, r.NumPath))
+		} else {
+			sm = append(sm, "(global error)")
+		}
+		for _, k := range names {
+			p := w.peers[k]
+			if states[p.addr.String()] == "" {
+				continue
+			}
+			if r, err := w.s.GetTable(context.Background(), &api.GetTableRequest{TableType: api.TableType_TABLE_TYPE_ADJ_IN, Name: p.addr.String(), Family: fam}); err == nil {
+				sm = append(sm, fmt.Sprintf("(adjin %s %d %d %d)", k, r.NumDestination, r.NumPath, r.NumAccepted))
+			}
+		}
+		parts = append(parts, "(summary "+strings.Join(sm, " ")+")")
+		var lk []string
+		for _, q := range []string{"10.1.0.0/24", "10.1.0.0/25", "10.1.0.0/16", "10.0.0.0/8", "10.1.0.128/25", "10.2.0.0/24", "10.3.0.0/16", "10.3.4.0/24"} {
+			for i, opt := range []apiutil.LookupOption{apiutil.LOOKUP_EXACT, apiutil.LOOKUP_LONGER, apiutil.LOOKUP_SHORTER} {
+				var got []string
+				w.s.ListPath(apiutil.ListPathRequest{TableType: api.TableType_TABLE_TYPE_GLOBAL, Family: bgp.RF_IPv4_UC,
+					Prefixes: []*apiutil.LookupPrefix{{Prefix: q, LookupOption: opt}}}, func(prefix bgp.NLRI, paths []*apiutil.Path) {
+					got = append(got, fmt.Sprintf("%s=%d", prefix.String(), len(paths)))
+				})
+				sort.Strings(got)
+				lk = append(lk, fmt.Sprintf("(%s %s %s)", []string{"exact", "longer", "shorter"}[i], q, strings.Join(got, " ")))
+			}
+		}
+		parts = append(parts, "(lookup "+strings.Join(lk, " ")+")")
 	}
 	// VPN: the global VPNv4 table and every VRF's view of it
 	var vpn []string
@@ -812,12 +878,16 @@ func (w *world) step(n sx.Node) {
 		if p := w.peers[n.At(1).Atom]; p != nil && p.conn != nil {
 			for _, r := range n.List[2:] {
 				nl, _ := bgp.NewIPAddrPrefix(netip.MustParsePrefix(r.At(1).Atom))
+				pid := uint32(0)
+				if r.Len() > 2 {
+					pid = uint32(r.At(2).Uint())
+				}
 				var m *bgp.BGPMessage
 				if r.At(0).Atom == "w" {
-					mp, _ := bgp.NewPathAttributeMpUnreachNLRI(bgp.RF_IPv6_UC, []bgp.PathNLRI{{NLRI: nl}})
+					mp, _ := bgp.NewPathAttributeMpUnreachNLRI(bgp.RF_IPv6_UC, []bgp.PathNLRI{{NLRI: nl, ID: pid}})
 					m = bgp.NewBGPUpdateMessage(nil, []bgp.PathAttributeInterface{mp}, nil)
 				} else {
-					mp, _ := bgp.NewPathAttributeMpReachNLRI(bgp.RF_IPv6_UC, []bgp.PathNLRI{{NLRI: nl}}, netip.MustParseAddr("2001:db8::1"))
+					mp, _ := bgp.NewPathAttributeMpReachNLRI(bgp.RF_IPv6_UC, []bgp.PathNLRI{{NLRI: nl, ID: pid}}, netip.MustParseAddr("2001:db8::1"))
 					m = bgp.NewBGPUpdateMessage(nil, []bgp.PathAttributeInterface{bgp.NewPathAttributeOrigin(0),
 						bgp.NewPathAttributeAsPath([]bgp.AsPathParamInterface{bgp.NewAs4PathParam(bgp.BGP_ASPATH_ATTR_TYPE_SEQ, []uint32{p.as})}), mp}, nil)
 				}
@@ -838,6 +908,19 @@ func (w *world) step(n sx.Node) {
 			p.conn.SetWriteDeadline(time.Now().Add(20 * time.Second))
 			p.conn.Write(b)
 		}
+	case "stall", "resume":
+		// (stall p): the peer stops reading after the message it is waiting for; (resume p): it reads again
+		if p := w.peers[n.At(1).Atom]; p != nil {
+			p.mu.Lock()
+			if n.At(0).Atom == "stall" && p.gate == nil {
+				p.gate = make(chan struct{})
+			} else if n.At(0).Atom == "resume" && p.gate != nil {
+				close(p.gate)
+				p.gate = nil
+			}
+			p.mu.Unlock()
+		}
+		synctest.Wait()
 	case "wait":
 		synctest.Wait()
 	case "sleep":
